@@ -258,7 +258,7 @@ def check(ctx, as_premise=False):
     # the decoding primitives as much as on the layouts: radix, byte order, continuation test, accumulation order, and no
     # rejection of part of the legal domain (a guard that refuses every 4-byte remaining length)
     dec_prims = ("decodeLength", "decode16Int", "decodeString")
-    for p in probs:
+    for p in ([] if as_premise else probs):       # (the decode clause is C02's own; C18 builds on the encoders' side only)
         if p.rule == "L1" and any(p.cls.startswith(x) for x in dec_prims):
             ctx.ob("S9", "%s %s" % (p.cls, p.what), False, where=loc(p.node), function="mqtt.pdu.%s" % p.cls.split("/")[0],
                    construct="mqtt.pdu.%s/%s" % (p.cls, p.what), msg=p.msg)
@@ -276,7 +276,7 @@ def check(ctx, as_premise=False):
     from .c01 import header_skip
     for name, c in pdu_classes(prog).items():
         problems, stats, encm, decm = compare_class(prog, c)
-        if name in CLIENT_BOUND:
+        if name in CLIENT_BOUND and not as_premise:
             # the decoders of what a broker sends: the fixed header skipped the way decodeLength reads it, every field read where the
             # (spec-checked) encoder of the same class puts it
             appl, okh, ln, msgh = header_skip(decm, facts)
@@ -284,6 +284,19 @@ def check(ctx, as_premise=False):
                 ctx.ob("S9", "%s.decode skips the fixed header with decodeLength's continuation bit" % name, okh,
                        where="src/mqtt/pdu.py:%d" % (ln or c.node.lineno), function="mqtt.pdu.%s.decode" % name,
                        construct="mqtt.pdu.%s/header-skip" % name, msg=msgh)
+            # flag bits a decoder exposes that its own encoder does not write from a field (so C01's pairing cannot judge them): the
+            # DUP flag of a PUBREL (meaningful under 3.1) is bit 3 of byte 0
+            for fld, bit in {"PUBREL": {"dup": 0x08}}.get(name, {}).items():
+                for rd in decm.reads:
+                    if rd.get("kind") == "bits" and rd.get("target") == ("self", fld):
+                        src_ok = isinstance(rd.get("source"), dict) and rd["source"].get("kind") == "hdrbyte" and str(rd["source"].get("off")) == "0"
+                        cmpc = rd.get("cmp")
+                        val_ok = (rd.get("mask") == bit and (cmpc in (("Eq", bit), ("NotEq", 0)) or (cmpc is None and rd.get("shift") in (0, bit.bit_length() - 1))))
+                        ctx.ob("S9", "%s.decode reads %s from bit 0x%02x of the first byte" % (name, fld, bit), src_ok and val_ok,
+                               where=loc(rd.get("node"), "src/mqtt/pdu.py:%d" % c.node.lineno), function="mqtt.pdu.%s.decode" % name,
+                               construct="mqtt.pdu.%s/decode/flag-%s" % (name, fld),
+                               msg="self.%s is decoded with mask %s, shift %s, comparison %s: the specification puts it at bit 0x%02x of byte 0" % (
+                                   fld, rd.get("mask"), rd.get("shift"), cmpc, bit))
             for p in problems:
                 if p.rule in ("L2", "L3", "L4"):
                     ctx.ob("S9", "%s %s" % (name, p.what), False, where=loc(p.node, "src/mqtt/pdu.py:%d" % c.node.lineno),
